@@ -8,6 +8,9 @@ import (
 	"os"
 	"os/exec"
 	"path/filepath"
+	"sort"
+	"strconv"
+	"strings"
 	"syscall"
 	"time"
 )
@@ -23,6 +26,10 @@ type Run struct {
 	Timeout    time.Duration
 }
 
+// QuiesceAfter is how long a host may run before the runner starts to look
+// whether it is blocked for good (a run takes some 50 ms on an idle machine).
+const QuiesceAfter = 10 * time.Second
+
 // Obs is everything observed about one run.
 type Obs struct {
 	Exit      int // exit status, -1 if killed by a signal
@@ -34,6 +41,13 @@ type Obs struct {
 	HostExit  int     // Seq of the host-exit marker
 	Survivors []int   // plugin pids still alive when the host had returned
 	Wall      time.Duration
+	// TimedOut: the host did not return by itself and was killed, at the
+	// ceiling or - Quiescent - earlier, once every thread of every process of
+	// its process group had slept for five seconds without using CPU time and
+	// without a new line in the event log: the run was blocked for good, not
+	// slow. Blocked describes those processes.
+	Quiescent bool
+	Blocked   string
 }
 
 // Do runs the host once. The error is an environment problem, never a verdict.
@@ -47,14 +61,14 @@ func (r Run) Do() (*Obs, error) {
 		}
 	}
 	for _, p := range r.Plugins {
-		if err := os.Symlink(r.Fakeplugin, filepath.Join(bin, "thriftrw-plugin-"+p.Name)); err != nil {
+		if err := os.Symlink(r.Fakeplugin, filepath.Join(bin, "thriftrw-plugin-"+p.Name)); err != nil && !os.IsExist(err) {
 			return nil, err
 		}
 		b, err := json.Marshal(p.Script)
 		if err != nil {
 			return nil, err
 		}
-		if err := os.WriteFile(filepath.Join(scripts, p.Name+".json"), b, 0o644); err != nil {
+		if err := os.WriteFile(filepath.Join(scripts, p.ID()+".json"), b, 0o644); err != nil {
 			return nil, err
 		}
 	}
@@ -98,12 +112,30 @@ func (r Run) Do() (*Obs, error) {
 	go func() { done <- cmd.Wait() }()
 	o := &Obs{}
 	var werr error
-	select {
-	case werr = <-done:
-	case <-time.After(to):
-		o.TimedOut = true
-		syscall.Kill(-pgid, syscall.SIGKILL)
-		werr = <-done
+	// wait for the host; from QuiesceAfter on look whether the run is blocked
+	// for good (see quiescent), and give up at the ceiling in any case
+	ceiling := time.After(to)
+	quiesce := time.After(QuiesceAfter)
+wait:
+	for {
+		select {
+		case werr = <-done:
+			break wait
+		case <-quiesce:
+			if q, desc := quiescent(pgid, logPath, done); q {
+				o.TimedOut, o.Quiescent, o.Blocked = true, true, desc
+				syscall.Kill(-pgid, syscall.SIGKILL)
+				werr = <-done
+				break wait
+			}
+			quiesce = time.After(2 * time.Second)
+		case <-ceiling:
+			o.TimedOut = true
+			o.Quiescent, o.Blocked = quiescent(pgid, logPath, done)
+			syscall.Kill(-pgid, syscall.SIGKILL)
+			werr = <-done
+			break wait
+		}
 	}
 	o.Wall = time.Since(t0)
 	// the marker is appended after the host has been reaped: every event a
@@ -180,6 +212,104 @@ func (r Run) Do() (*Obs, error) {
 	return o, nil
 }
 
+// procStat is what /proc/<pid>/task/<tid>/stat says about one thread.
+type procStat struct {
+	comm  string
+	state byte
+	pgrp  int
+	ticks uint64 // utime + stime
+}
+
+func readStat(path string) (procStat, bool) {
+	b, err := os.ReadFile(path)
+	if err != nil {
+		return procStat{}, false
+	}
+	s := string(b)
+	l, r := strings.IndexByte(s, '('), strings.LastIndexByte(s, ')')
+	if l < 0 || r < l {
+		return procStat{}, false
+	}
+	f := strings.Fields(s[r+1:])
+	// f[0] state, f[1] ppid, f[2] pgrp, ..., f[11] utime, f[12] stime
+	if len(f) < 13 {
+		return procStat{}, false
+	}
+	ps := procStat{comm: s[l+1 : r], state: f[0][0]}
+	ps.pgrp, _ = strconv.Atoi(f[2])
+	u, _ := strconv.ParseUint(f[11], 10, 64)
+	v, _ := strconv.ParseUint(f[12], 10, 64)
+	ps.ticks = u + v
+	return ps, true
+}
+
+// groupSample looks at every thread of every process of the process group:
+// the number of threads, whether all of them sleep (state S; zombies count
+// as asleep), the CPU ticks used so far and a description of the processes.
+func groupSample(pgid int) (threads int, asleep bool, ticks uint64, desc string) {
+	asleep = true
+	ents, _ := os.ReadDir("/proc")
+	var parts []string
+	for _, e := range ents {
+		pid, err := strconv.Atoi(e.Name())
+		if err != nil {
+			continue
+		}
+		ps, ok := readStat(filepath.Join("/proc", e.Name(), "stat"))
+		if !ok || ps.pgrp != pgid {
+			continue
+		}
+		wchan, _ := os.ReadFile(filepath.Join("/proc", e.Name(), "wchan"))
+		parts = append(parts, fmt.Sprintf("%s(pid %d, state %c, wchan %s)", ps.comm, pid, ps.state, strings.TrimSpace(string(wchan))))
+		tasks, _ := os.ReadDir(filepath.Join("/proc", e.Name(), "task"))
+		for _, t := range tasks {
+			ts, ok := readStat(filepath.Join("/proc", e.Name(), "task", t.Name(), "stat"))
+			if !ok {
+				continue
+			}
+			threads++
+			ticks += ts.ticks
+			if ts.state != 'S' && ts.state != 'Z' {
+				asleep = false
+			}
+		}
+	}
+	sort.Strings(parts)
+	return threads, asleep, ticks, strings.Join(parts, " ")
+}
+
+// quiescent decides, for a host that has hit its ceiling, whether the run is
+// blocked for good: during five seconds (20 samples) every thread of the
+// process group is asleep, the group uses no CPU time (one tick of slack), the
+// set of threads stays the same and the event log does not grow. The longest
+// scripted pause of a fake plugin is far below that window, and the host has
+// no timers; a loaded machine makes threads runnable, not sleeping.
+func quiescent(pgid int, logPath string, done <-chan error) (bool, string) {
+	size := func() int64 {
+		if fi, err := os.Stat(logPath); err == nil {
+			return fi.Size()
+		}
+		return -1
+	}
+	n0, asleep, t0, desc := groupSample(pgid)
+	s0 := size()
+	if n0 == 0 || !asleep {
+		return false, desc
+	}
+	for i := 0; i < 20; i++ {
+		time.Sleep(250 * time.Millisecond)
+		if len(done) > 0 {
+			return false, desc // the host returned after all
+		}
+		n, asleep, t, d := groupSample(pgid)
+		if n != n0 || !asleep || t > t0+1 || size() != s0 {
+			return false, d
+		}
+		desc = d
+	}
+	return true, desc
+}
+
 // ReadEvents parses an event log.
 func ReadEvents(path string) ([]Event, error) {
 	b, err := os.ReadFile(path)
@@ -203,7 +333,7 @@ func ReadEvents(path string) ([]Event, error) {
 	return evs, nil
 }
 
-// Of returns the events of one plugin, in order.
+// Of returns the events of one plugin process (name = Plugin.ID), in order.
 func Of(evs []Event, name string) []Event {
 	var out []Event
 	for _, e := range evs {
@@ -218,6 +348,11 @@ func Of(evs []Event, name string) []Event {
 func PluginArgs(ps []Plugin) []string {
 	var a []string
 	for _, p := range ps {
+		if p.Instance != "" {
+			// the flag value is split like a shell command line
+			a = append(a, "--plugin="+p.Name+" --instance="+p.Instance)
+			continue
+		}
 		a = append(a, "--plugin="+p.Name)
 	}
 	return a
